@@ -26,7 +26,7 @@ from ..monitors import EvalTracer
 
 glom = env.bind()
 import glom.core as gcore  # noqa: E402
-from glom import (T, S, A, Coalesce, Match, M, Fold, Sum, Flatten, Merge, Val, Spec, Pipe, Switch, Check, Iter, Assign,  # noqa: E402
+from glom import (T, S, A, Coalesce, Match, M, Fold, Sum, Flatten, Merge, Val, Spec, Pipe, Switch, Check, Iter, Assign, Call,  # noqa: E402
                   GlomError, Path, Or, glom as G)
 from glom.grouping import Group, First, Max, Limit  # noqa: E402
 from glom.reduction import Count  # noqa: E402
@@ -189,8 +189,51 @@ def programs(n_yields):
         dict(name='check-validate', target=nums, spec=lambda: [Check(validate=lambda x: Y(x) >= 0)]),
         dict(name='star-then-yield', target=lambda: {'r': [{'k': i} for i in range(n_yields)]}, spec=lambda: ('r.*.k', [Y])),
         dict(name='failing-in-list', target=nums, spec=lambda: [lambda x: Y(x)] if not n_yields else ([lambda x: Y(x)], T[99])),
+        # container literals in ARGUMENT position whose construction is interrupted by a yield point; the spec objects are
+        # shared between threads (a memo keyed by id(spec) that outlives one call would hand one call another call's value)
+        dict(name='shared-arg-default', target=lambda: {'v': threading.get_ident()}, spec=lambda: _shared_arg('default', n_yields)),
+        dict(name='shared-arg-call', target=lambda: {'v': threading.get_ident()}, spec=lambda: _shared_arg('call', n_yields)),
+        dict(name='shared-arg-scope', target=lambda: {'v': threading.get_ident()}, spec=lambda: _shared_arg('scope', n_yields)),
     ]
     return P
+
+
+_SHARED_ARG = {}
+
+
+def _tid_free(v):
+    return v
+
+
+def _shared_arg(kind, n):
+    """one spec object per (kind, n), shared by every thread: a list/dict literal in argument position with n sub-specs that
+    each run a user callable (the yield point) and then read the target"""
+    key = (kind, n)
+    if key not in _SHARED_ARG:
+        lit = [Spec((Y, 'v')) for _ in range(max(n, 1))] + [{'k': Spec((Y, 'v')) if n > 1 else T['v']}]
+        if kind == 'default':
+            sp = (Coalesce(T['zz'], default=lit), _own_thread_only)
+        elif kind == 'call':
+            sp = (Call(lambda a, kw=None: (a, kw), args=(lit,), kwargs={'kw': {'d': lit}}), _own_thread_only)
+        else:
+            sp = (S(x=lit), S.x, _own_thread_only)
+        _SHARED_ARG[key] = sp
+    return _SHARED_ARG[key]
+
+
+def _own_thread_only(value):
+    """normalise: every leaf must be the calling thread's own target value"""
+    me = threading.get_ident()
+
+    def walk(v):
+        if isinstance(v, dict):
+            return {k: walk(x) for k, x in v.items()}
+        if isinstance(v, (list, tuple)):
+            return type(v)(walk(x) for x in v)
+        if isinstance(v, int) and not isinstance(v, bool):
+            return 'own' if v == me else 'FOREIGN-OR-STALE(%r)' % v
+        return v
+    return walk(value)
 
 
 _serial = itertools.count()
